@@ -250,3 +250,5 @@ PROPS["C12"] = {
     "assumptions": ["KeyMate: positions with equal 64-bit keys agree on forced mates", "the completeness clauses are decided by the oracle run, not by a theorem (path-dependent mate distances)",
                     "the soundness theorems need NoMateInOne at the root and StrictScores for the initial cache: without them the statement is FALSE (kernel-checked counter-examples, see DESIGN.md D9)"],
 }
+PROPS["C14"]["extra"] = procdrive.c14_extra
+PROPS["C14"]["need_engine"] = True
